@@ -153,6 +153,9 @@ Ltac no_byte :=
                | apply Forall_app; split
                | (apply Plain_no10; assumption) | (apply Plain_no32; assumption) ].
 
+Ltac norm_app := repeat (progress cbn [app] || rewrite <- app_assoc).
+Ltac eq_app := unfold crlf, sp; norm_app; reflexivity.
+
 (* ---------------- round trip ---------------- *)
 Lemma store_roundtrip (name : bytes) (mk : bytes -> bytes -> N -> N -> req) k d f t rest b0 name' :
   name = b0 :: name' -> plain b0 -> Plain name ->
@@ -165,20 +168,17 @@ Proof.
   unfold parse_text, enc_store, sp, crlf.
   replace ((name ++ [32] ++ k ++ [32] ++ dec f ++ [32] ++ dec t ++ [32] ++ dec (len d) ++ [13; 10] ++ d ++ [13; 10]) ++ rest)
     with ((name ++ 32 :: k ++ 32 :: dec f ++ 32 :: dec t ++ 32 :: dec (len d) ++ [13]) ++ 10 :: (d ++ crlf ++ rest))
-    by (unfold crlf; cbn [app]; rewrite <- !app_assoc; cbn [app];
-        repeat (f_equal; rewrite <- ?app_assoc; cbn [app])).
+    by eq_app.
   rewrite read_line_app.
   2:{ rewrite En in *. inversion Pn; subst. unfold plain in *. no_byte. }
   unfold pre. cbn [fst].
   replace ((name ++ 32 :: k ++ 32 :: dec f ++ 32 :: dec t ++ 32 :: dec (len d) ++ [13]) ++ [10])
     with (b0 :: (name' ++ 32 :: k ++ 32 :: dec f ++ 32 :: dec t ++ [32]) ++ dec (len d) ++ crlf)
-    by (rewrite En; unfold crlf; cbn [app]; rewrite <- !app_assoc; cbn [app];
-        repeat (f_equal; rewrite <- ?app_assoc; cbn [app])).
+    by (rewrite En; eq_app).
   rewrite trim_space_line; [| exact P0 | exact Pd | apply dec_nonempty].
   replace (b0 :: (name' ++ 32 :: k ++ 32 :: dec f ++ 32 :: dec t ++ [32]) ++ dec (len d))
     with (name ++ 32 :: (k ++ 32 :: (dec f ++ 32 :: (dec t ++ 32 :: dec (len d)))))
-    by (rewrite En; cbn [app]; rewrite <- !app_assoc; cbn [app];
-        repeat (f_equal; rewrite <- ?app_assoc; cbn [app])).
+    by (rewrite En; eq_app).
   rewrite !split_sp_app by (apply Plain_no32; assumption).
   rewrite split_sp_nosp by (apply Plain_no32; assumption).
   rewrite D. unfold text_store.
@@ -211,10 +211,10 @@ Lemma simple_roundtrip b0 name' fin r rest :
 Proof.
   intros P0 Pn Pf NE D. unfold parse_text, crlf.
   replace ((b0 :: name' ++ fin) ++ [13; 10] ++ rest) with ((b0 :: name' ++ fin ++ [13]) ++ 10 :: rest)
-    by (cbn [app]; rewrite <- !app_assoc; reflexivity).
+    by eq_app.
   rewrite read_line_app by (unfold plain in P0; no_byte).
   replace ((b0 :: name' ++ fin ++ [13]) ++ [10]) with (b0 :: name' ++ fin ++ crlf)
-    by (unfold crlf; cbn [app]; rewrite <- !app_assoc; reflexivity).
+    by eq_app.
   rewrite trim_space_line by assumption.
   rewrite split_sp_nosp by (unfold plain in P0; no_byte).
   unfold pre. rewrite D. reflexivity.
@@ -250,46 +250,38 @@ Proof.
   - (* delete *)
     apply andb_true_iff in W. destruct W as [K O]. apply N.eqb_eq in O. subst opaque.
     apply Plain_key in K. destruct K as [Pk NE].
-    unfold parse_text, sp, crlf.
-    replace ((asc "delete" ++ [32] ++ k ++ [13; 10]) ++ rest) with ((asc "delete" ++ 32 :: k ++ [13]) ++ 10 :: rest)
-      by (cbn [app]; rewrite <- !app_assoc; reflexivity).
-    rewrite read_line_app by (cbn [asc Ascii.N_of_ascii]; no_byte).
-    change ((asc "delete" ++ 32 :: k ++ [13]) ++ [10]) with (100 :: ([101; 108; 101; 116; 101; 32] ++ (k ++ [13])) ++ [10]).
-    replace (100 :: ([101; 108; 101; 116; 101; 32] ++ (k ++ [13])) ++ [10])
-      with (100 :: [101; 108; 101; 116; 101; 32] ++ k ++ crlf)
-      by (unfold crlf; cbn [app]; rewrite <- !app_assoc; reflexivity).
+    unfold parse_text. change (asc "delete") with [100; 101; 108; 101; 116; 101].
+    replace (([100; 101; 108; 101; 116; 101] ++ sp ++ k ++ crlf) ++ rest)
+      with (([100; 101; 108; 101; 116; 101] ++ 32 :: k ++ [13]) ++ 10 :: rest) by eq_app.
+    rewrite read_line_app by no_byte.
+    replace (([100; 101; 108; 101; 116; 101] ++ 32 :: k ++ [13]) ++ [10])
+      with (100 :: [101; 108; 101; 116; 101; 32] ++ k ++ crlf) by eq_app.
     rewrite trim_space_line; [| unfold plain; lia | exact Pk | exact NE].
-    change (100 :: [101; 108; 101; 116; 101; 32] ++ k) with (asc "delete" ++ 32 :: k).
-    rewrite split_sp_app by (cbn; no_byte). rewrite split_sp_nosp by (apply Plain_no32, Pk).
+    change (100 :: [101; 108; 101; 116; 101; 32] ++ k) with ([100; 101; 108; 101; 116; 101] ++ 32 :: k).
+    rewrite split_sp_app by no_byte. rewrite split_sp_nosp by (apply Plain_no32, Pk).
     reflexivity.
   - (* touch *)
     apply andb_true_iff in W. destruct W as [W O]. apply andb_true_iff in W. destruct W as [K Ht].
     apply N.eqb_eq in O. subst opaque. unfold u32b in Ht.
     apply Plain_key in K. destruct K as [Pk NE]. pose proof (Plain_dec ttl) as Pt.
-    unfold parse_text, sp, crlf.
-    replace ((asc "touch" ++ [32] ++ k ++ [32] ++ dec ttl ++ [13; 10]) ++ rest)
-      with ((asc "touch" ++ 32 :: k ++ 32 :: dec ttl ++ [13]) ++ 10 :: rest)
-      by (cbn [app]; rewrite <- !app_assoc; cbn [app]; rewrite <- !app_assoc; reflexivity).
-    rewrite read_line_app by (cbn [asc Ascii.N_of_ascii]; no_byte).
-    replace ((asc "touch" ++ 32 :: k ++ 32 :: dec ttl ++ [13]) ++ [10])
-      with (116 :: ([111; 117; 99; 104; 32] ++ k ++ [32]) ++ dec ttl ++ crlf)
-      by (unfold crlf; cbn [app asc Ascii.N_of_ascii]; rewrite <- !app_assoc; cbn [app]; rewrite <- !app_assoc; reflexivity).
+    unfold parse_text. change (asc "touch") with [116; 111; 117; 99; 104].
+    replace (([116; 111; 117; 99; 104] ++ sp ++ k ++ sp ++ dec ttl ++ crlf) ++ rest)
+      with (([116; 111; 117; 99; 104] ++ 32 :: k ++ 32 :: dec ttl ++ [13]) ++ 10 :: rest) by eq_app.
+    rewrite read_line_app by no_byte.
+    replace (([116; 111; 117; 99; 104] ++ 32 :: k ++ 32 :: dec ttl ++ [13]) ++ [10])
+      with (116 :: ([111; 117; 99; 104; 32] ++ k ++ [32]) ++ dec ttl ++ crlf) by eq_app.
     rewrite trim_space_line; [| unfold plain; lia | exact Pt | apply dec_nonempty].
     replace (116 :: ([111; 117; 99; 104; 32] ++ k ++ [32]) ++ dec ttl)
-      with (asc "touch" ++ 32 :: (k ++ 32 :: dec ttl))
-      by (cbn [app asc Ascii.N_of_ascii]; rewrite <- !app_assoc; reflexivity).
-    rewrite split_sp_app by (cbn; no_byte). rewrite split_sp_app by (apply Plain_no32, Pk).
+      with ([116; 111; 117; 99; 104] ++ 32 :: (k ++ 32 :: dec ttl)) by eq_app.
+    rewrite split_sp_app by no_byte. rewrite split_sp_app by (apply Plain_no32, Pk).
     rewrite split_sp_nosp by (apply Plain_no32, Pt).
-    unfold pre. cbn [fst]. unfold text_dispatch. cbn [is_cmd].
-    change (bytes_eqb (asc "touch") (asc "set")) with false.
-    change (bytes_eqb (asc "touch") (asc "add")) with false.
-    change (bytes_eqb (asc "touch") (asc "replace")) with false.
-    change (bytes_eqb (asc "touch") (asc "append")) with false.
-    change (bytes_eqb (asc "touch") (asc "prepend")) with false.
-    change (bytes_eqb (asc "touch") (asc "get")) with false.
-    change (bytes_eqb (asc "touch") (asc "delete")) with false.
-    change (bytes_eqb (asc "touch") (asc "touch")) with true.
-    cbv iota. rewrite field_u32_dec by lia. reflexivity.
+    unfold pre. cbn [fst].
+    change (text_dispatch [[116; 111; 117; 99; 104]; k; dec ttl] rest)
+      with (match field_u32 (dec ttl) with
+            | Some t => (PDone (RTouch k t 0) rest, @nil aev)
+            | None => (PClientErr EBadRequest rest, [])
+            end).
+    rewrite field_u32_dec by lia. reflexivity.
   - (* get *)
     apply andb_true_iff in W. destruct W as [W E]. apply andb_true_iff in W. destruct W as [W O].
     apply N.eqb_eq in O. subst noopOpaque. destruct noopEnd; [discriminate|].
@@ -301,45 +293,140 @@ Proof.
     destruct (exists_last NE) as (its & gl & El).
     assert (Plain (gi_key gl) /\ gi_key gl <> []) as [Pl Nl].
     { rewrite El in PI. rewrite Forall_app in PI. destruct PI as [_ PI]. inversion PI; assumption. }
-    unfold parse_text, crlf.
-    replace ((asc "get" ++ enc_keys items ++ [13; 10]) ++ rest)
-      with ((asc "get" ++ enc_keys items ++ [13]) ++ 10 :: rest)
-      by (rewrite <- !app_assoc; cbn [app]; reflexivity).
+    unfold parse_text. change (asc "get") with [103; 101; 116].
+    replace (([103; 101; 116] ++ enc_keys items ++ crlf) ++ rest)
+      with (([103; 101; 116] ++ enc_keys items ++ [13]) ++ 10 :: rest) by eq_app.
     rewrite read_line_app.
-    2:{ cbn [asc Ascii.N_of_ascii app]. no_byte. apply enc_keys_no10, PK. }
-    replace ((asc "get" ++ enc_keys items ++ [13]) ++ [10])
+    2:{ no_byte. apply enc_keys_no10, PK. }
+    replace (([103; 101; 116] ++ enc_keys items ++ [13]) ++ [10])
       with (103 :: ([101; 116] ++ enc_keys its ++ [32]) ++ gi_key gl ++ crlf).
-    2:{ rewrite El, enc_keys_app. cbn [enc_keys]. unfold sp, crlf. cbn [asc Ascii.N_of_ascii app].
-        rewrite <- !app_assoc. cbn [app]. rewrite app_nil_r. rewrite <- !app_assoc. reflexivity. }
+    2:{ rewrite El, enc_keys_app. cbn [enc_keys]. rewrite app_nil_r. eq_app. }
     rewrite trim_space_line; [| unfold plain; lia | exact Pl | exact Nl].
-    replace (103 :: ([101; 116] ++ enc_keys its ++ [32]) ++ gi_key gl) with (asc "get" ++ enc_keys items).
-    2:{ rewrite El, enc_keys_app. cbn [enc_keys]. unfold sp. cbn [asc Ascii.N_of_ascii app].
-        rewrite <- !app_assoc. cbn [app]. rewrite app_nil_r. reflexivity. }
-    rewrite split_keys; [| cbn; no_byte | exact PK].
-    unfold pre. cbn [fst]. unfold text_dispatch. cbn [is_cmd].
-    change (bytes_eqb (asc "get") (asc "set")) with false.
-    change (bytes_eqb (asc "get") (asc "add")) with false.
-    change (bytes_eqb (asc "get") (asc "replace")) with false.
-    change (bytes_eqb (asc "get") (asc "append")) with false.
-    change (bytes_eqb (asc "get") (asc "prepend")) with false.
-    change (bytes_eqb (asc "get") (asc "get")) with true.
-    cbv iota. rewrite Ei at 1. cbn [map]. rewrite <- Ei.
-    cbn [fst]. rewrite <- (items_map items W) at 2. rewrite Ei. reflexivity.
+    replace (103 :: ([101; 116] ++ enc_keys its ++ [32]) ++ gi_key gl) with ([103; 101; 116] ++ enc_keys items).
+    2:{ rewrite El, enc_keys_app. cbn [enc_keys]. rewrite app_nil_r. eq_app. }
+    rewrite split_keys; [| no_byte | exact PK].
+    unfold pre. cbn [fst].
+    change (text_dispatch ([103; 101; 116] :: map gi_key items) rest)
+      with (match map gi_key items with
+            | [] => (PClientErr EBadRequest rest, @nil aev)
+            | _ => (PDone (RGet (map (fun k => mkGI k 0 false) (map gi_key items)) 0 false) rest, [])
+            end).
+    rewrite (items_map items W). rewrite Ei. reflexivity.
   - (* noop *)
     apply N.eqb_eq in W. subst opaque.
     apply (simple_roundtrip 110 [] [111; 111; 112]); try (repeat constructor; unfold plain; lia); try discriminate.
-    intros s. reflexivity.
   - (* quit *)
     apply andb_true_iff in W. destruct W as [O Q]. apply N.eqb_eq in O. subst opaque.
     destruct quiet; [discriminate|].
     apply (simple_roundtrip 113 [] [117; 105; 116]); try (repeat constructor; unfold plain; lia); try discriminate.
-    intros s. reflexivity.
   - (* version *)
     apply N.eqb_eq in W. subst opaque.
     apply (simple_roundtrip 118 [] [101; 114; 115; 105; 111; 110]); try (repeat constructor; unfold plain; lia); try discriminate.
-    intros s. reflexivity.
   - (* stats *)
     apply N.eqb_eq in W. subst opaque.
     apply (simple_roundtrip 115 [] [116; 97; 116; 115]); try (repeat constructor; unfold plain; lia); try discriminate.
-    intros s. reflexivity.
 Qed.
+
+Lemma enc_text_nonempty r : wf_text r = true -> enc_text r <> [].
+Proof.
+  intros W E. pose proof (text_roundtrip r [] W) as RT. rewrite E in RT. cbn in RT. discriminate.
+Qed.
+
+Theorem text_pipeline rs :
+  forallb wf_text rs = true -> parse_all parse_text (concat (map enc_text rs)) = Some rs.
+Proof. apply parse_all_roundtrip; [exact text_roundtrip | exact enc_text_nonempty]. Qed.
+
+(* ================= C11: progress and allocation ================= *)
+Definition rest_le (o : pout) (s : bytes) : Prop :=
+  match fst o with
+  | PDone _ rest | PClientErr _ rest => (length rest <= length s)%nat
+  | PClose => True
+  end.
+
+Lemma text_store_rest mk parts s : rest_le (text_store mk parts s) s.
+Proof.
+  unfold text_store, rest_le.
+  destruct parts as [|p0 [|p1 [|p2 [|p3 [|p4 [|p5 ps]]]]]]; cbn [fst]; try lia.
+  destruct (field_u32 p2) as [fl|]; cbn [fst]; [|lia].
+  destruct (field_u32 p3) as [tt|]; cbn [fst]; [|lia].
+  destruct (field_u32 p4) as [n|]; cbn [fst]; [|lia].
+  destruct (read_n s n) as [[d s1]|] eqn:R; [|exact I]. apply read_n_length in R.
+  destruct (read_line s1) as [[tl s2]|] eqn:L; cbn [fst length]; [|lia].
+  apply read_line_length in L. lia.
+Qed.
+
+Lemma text_dispatch_rest parts s : rest_le (text_dispatch parts s) s.
+Proof.
+  unfold text_dispatch. destruct parts as [|c args]; [unfold rest_le; cbn [fst]; lia|].
+  repeat match goal with
+         | |- rest_le (if ?b then _ else _) _ => destruct b
+         end;
+    try apply text_store_rest;
+    repeat match goal with
+           | |- rest_le (match ?x with _ => _ end) _ => destruct x
+           end;
+    unfold rest_le; cbn [fst]; lia.
+Qed.
+
+Theorem text_progress : progresses parse_text.
+Proof.
+  intros s. unfold parse_text.
+  destruct (read_line s) as [[line s1]|] eqn:L; [|exact I].
+  apply read_line_length in L. pose proof (text_dispatch_rest (split_sp (trim_space line)) s1) as D.
+  unfold rest_le, pre in *. cbn [fst].
+  destruct (fst (text_dispatch (split_sp (trim_space line)) s1)); try exact I; lia.
+Qed.
+
+Lemma field_u32_lt f n : field_u32 f = Some n -> n < 4294967296.
+Proof. unfold field_u32. apply parse_u32_lt. Qed.
+
+Lemma len_length {A} (a b : list A) : (length a <= length b)%nat -> len a <= len b.
+Proof. unfold len. lia. Qed.
+
+Lemma text_store_alloc mk parts s : Forall (text_ev_ok s) (snd (text_store mk parts s)).
+Proof.
+  unfold text_store.
+  destruct parts as [|p0 [|p1 [|p2 [|p3 [|p4 [|p5 ps]]]]]]; cbn [snd]; try constructor.
+  destruct (field_u32 p2) as [fl|]; cbn [snd]; [|constructor].
+  destruct (field_u32 p3) as [tt|]; cbn [snd]; [|constructor].
+  destruct (field_u32 p4) as [n|] eqn:F; cbn [snd]; [|constructor].
+  apply field_u32_lt in F.
+  destruct (read_n s n) as [[d s1]|] eqn:R; [|repeat constructor; exact F].
+  apply read_n_length in R.
+  destruct (read_line s1) as [[tl s2]|] eqn:L; cbn [snd].
+  - apply read_line_length in L. repeat constructor; [exact F|]. cbn. apply len_length. lia.
+  - repeat constructor; [exact F|]. cbn. apply len_length. lia.
+Qed.
+
+Lemma text_dispatch_alloc parts s : Forall (text_ev_ok s) (snd (text_dispatch parts s)).
+Proof.
+  unfold text_dispatch. destruct parts as [|c args]; [constructor|].
+  repeat match goal with
+         | |- Forall _ (snd (if ?b then _ else _)) => destruct b
+         end;
+    try apply text_store_alloc;
+    repeat match goal with
+           | |- Forall _ (snd (match ?x with _ => _ end)) => destruct x
+           end;
+    constructor.
+Qed.
+
+Theorem text_alloc s : Forall (text_ev_ok s) (snd (parse_text s)).
+Proof.
+  unfold parse_text.
+  destruct (read_line s) as [[line s1]|] eqn:L.
+  - apply read_line_length in L. unfold pre. cbn [snd app]. constructor.
+    + cbn. apply len_length. lia.
+    + eapply Forall_impl; [|apply text_dispatch_alloc].
+      intros a. destruct a; cbn; try tauto. intros H.
+      assert (len s1 <= len s) by (apply len_length; lia). lia.
+  - repeat constructor. cbn. lia.
+Qed.
+
+Theorem text_resegmented rs (segs : list bytes) :
+  forallb wf_text rs = true -> concat segs = concat (map enc_text rs) ->
+  parse_all parse_text (concat segs) = Some rs.
+Proof. apply parse_all_resegmented; [exact text_roundtrip | exact enc_text_nonempty]. Qed.
+
+Theorem text_never_spins s : exists l, serve parse_text s = Some l.
+Proof. apply serve_total, text_progress. Qed.
